@@ -60,6 +60,9 @@ P = {
  "C18": ("Seeded random notes, containers, bars and tracks (sequential API) and 1-4 parallel bars / tracks / compositions in an aligned and a free-rhythm class are played through a recording Sequencer subclass with recording observers attached 0/1/2 times or detached; cumulative sleep is mapped to musical time through the model's tempo segments and the timed on/off multiset, per-(pitch, channel) balance, play order (sequential), total sleep, instrument announcements, observer trace and returned tempo are compared with the event model; control changes enumerated around the 0/128 bounds.",
          "Event model computed from the score description; simultaneous events constrained only by balance (and order of notes for the sequential API); parallel tempo changes only in the first part.",
          "model-based trace validation over Hypothesis-generated programs"),
+ "C19": ("Seeded random notes, containers, bars, tracks and compositions over the full value vocabulary (0-4 dots, complete tuplet groups on every base, longa/breve), all keys, 19 meters, chords, rests and Unicode/markup metadata are exported; LilyPond text is decoded by an own reader of the emitted subset and compared entry by entry (pitches, octave, chord order, base value, dots, enclosing \\times ratio, key/time state after every bar, header fields); MusicXML is parsed with xml.etree and compared per part / measure / note element (ids, numbering, time, fifths, mode, step/alter/octave, chord marks, dots, duration/divisions, names). Every vocabulary value also systematically through from_Track of both exporters; from_Note exhaustively.",
+         "Own LilyPond-subset reader (vlib/ref/lyread.py) and xml.etree as independent decoders; expected content computed from the score description.",
+         "translation validation by independent decoders over Hypothesis-generated programs"),
 }
 DEFAULT_NOTE = "Oracle = independent reference model under /verif/vlib/ref; bounds per DESIGN.md section 4."
 
